@@ -56,6 +56,10 @@ def cases(tier, seed):
                                 sweeps[0] = 2 + k % 2
                             yield dict(kind=alg, model=model, d=d, L=L, bstyle=bstyle, Dmax=Dmax, numiter=nit,
                                        sweeps=sweeps, seed=int(rng.integers(1 << 31)))
+                            if alg == 'two' and r == 0 and bstyle in ('random', 'complete') and nit in (3, 25):
+                                # two-site DMRG with a non-zero split tolerance (singular values are really discarded)
+                                yield dict(kind=alg, model=model, d=d, L=L, bstyle=bstyle, Dmax=Dmax, numiter=nit, sweeps=sweeps,
+                                           tol_split=(1e-3, 0.05, 0.3)[k % 3], seed=int(rng.integers(1 << 31)))
 
 
 def run_case(c):
@@ -109,6 +113,7 @@ def run_case(c):
         reach = (st['uniform'] and h.schmidt_ranks(v, d, L) == h.bond_dims(psi)
                  and h.irreducible(Hd[np.ix_(mask, mask)], 1e-9 * max(1.0, nH)))
     Estart = h.energy(Hd, v)
+    tsplit = c.get('tol_split', 0)
     for j, ns in enumerate(c['sweeps']):
         D0 = h.bond_dims(psi)
         where = f'invocation {j} (numsweeps={ns}, numiter={numiter}, bonds {D0}, sector {qtot} of dimension {secdim})'
@@ -116,7 +121,7 @@ def run_case(c):
             if alg == 'single':
                 en = ptn.calculate_ground_state_local_singlesite(H, psi, ns, numiter_lanczos=numiter)
             else:
-                en = ptn.calculate_ground_state_local_twosite(H, psi, ns, numiter_lanczos=numiter, tol_split=0)
+                en = ptn.calculate_ground_state_local_twosite(H, psi, ns, numiter_lanczos=numiter, tol_split=tsplit)
         except Exception as e:
             fail('returns', f'{where}: raised {type(e).__name__}: {e}')
             break
@@ -140,18 +145,28 @@ def run_case(c):
             fail('unit_norm', f'{where}: norm of the returned state is {n1!r}')
         if n1 > 0 and np.isfinite(n1):
             E1 = float(np.real(np.vdot(v, Hd @ v)))
-            if not abs(E1 - en[-1]) <= tol:
+            if tsplit > 0:
+                # the last local step reports the Ritz value of the two-site tensor *before* its truncated split; the returned
+                # state differs from that state by at most 2 sqrt(tol_split) in norm, hence the energies by 4 ||H|| sqrt(tol_split)
+                if not abs(E1 - en[-1]) <= 4 * nH * np.sqrt(tsplit) + tol:
+                    fail('last_energy_within_truncation_bound', f'{where}, tol_split={tsplit}: <psi|H|psi> = {E1!r}, last reported energy '
+                                                                f'{en[-1]!r}, bound {4 * nH * np.sqrt(tsplit):.3e}')
+                elif not abs(E1 - en[-1]) <= tol:
+                    fails.append(dict(clause='last_energy_is_state_energy', signature=f'{fname}:last_energy_is_state_energy:tol_split>0',
+                                      detail=f'{where}, tol_split={tsplit}: <psi|H|psi> = {E1!r} but last reported energy {en[-1]!r} '
+                                             f'(the value reported is the one before the truncated split of the last two-site tensor)'))
+            elif not abs(E1 - en[-1]) <= tol:
                 fail('last_energy_is_state_energy', f'{where}: <psi|H|psi> = {E1!r} but last reported energy {en[-1]!r} '
                                                     f'(difference {E1 - en[-1]:.3e}, ||H||={nH:.3g})')
         if not np.all(en >= Egs - tol):
             fail('variational_lower_bound', f'{where}: reported {en.tolist()} below exact sector ground-state energy {Egs!r}')
-        if not np.all(en <= Estart + tol):
+        if tsplit == 0 and not np.all(en <= Estart + tol):
             fail('not_above_start', f'{where}: reported {en.tolist()} above energy of the normalized start state {Estart!r}')
-        if len(en) > 1 and not np.all(np.diff(en) <= tol):
+        if tsplit == 0 and len(en) > 1 and not np.all(np.diff(en) <= tol):
             fail('non_increasing', f'{where}: reported energies {en.tolist()} increase')
         if reach and j == 0 and not abs(en[-1] - Egs) <= 1e-7 * max(1.0, nH):
             fail('exact_on_complete_manifold', f'{where}: last energy {en[-1]!r} vs exact {Egs!r} (difference {en[-1] - Egs:.3e})')
-        if fails:
+        if [f for f in fails if not f['signature'].endswith('tol_split>0')]:
             break
         # the next invocation starts from the returned state
         Estart = float(en[-1]) if n1 <= 0 else h.energy(Hd, v)
